@@ -847,6 +847,63 @@ pub fn to_ast(e: &E) -> ast::Expression {
     out.pop().unwrap()
 }
 
+/// Like `to_ast`, but structurally equal operator subtrees are built once and the `Rc<Operator>`
+/// is shared between all the places they occur in (a DAG, which the public types allow: it
+/// compares equal to the tree built from separate copies and must behave like it).
+pub fn to_ast_shared(e: &E) -> ast::Expression {
+    use ast::Expression as X;
+    use ast::Operator as O;
+    fn go(e: &E, memo: &mut std::collections::HashMap<u64, ast::Expression>, depth: usize) -> ast::Expression {
+        if depth > 400 {
+            return to_ast(e);
+        }
+        match e {
+            E::T(_) | E::A(_) | E::G(_) | E::Pos => to_ast(e),
+            _ => {
+                let k = crate::util::stable_hash(e);
+                if let Some(x) = memo.get(&k) {
+                    return x.clone();
+                }
+                let x = match e {
+                    E::Not(a) => X::Operator(Rc::new(O::Not(go(a, memo, depth + 1)))),
+                    E::Prec(a) => X::Operator(Rc::new(O::Precedence(go(a, memo, depth + 1)))),
+                    E::And(a, b) => {
+                        let (xa, xb) = (go(a, memo, depth + 1), go(b, memo, depth + 1));
+                        X::Operator(Rc::new(O::And(xa, xb)))
+                    }
+                    E::Or(a, b) => {
+                        let (xa, xb) = (go(a, memo, depth + 1), go(b, memo, depth + 1));
+                        X::Operator(Rc::new(O::Or(xa, xb)))
+                    }
+                    E::List(a, b) => {
+                        let (xa, xb) = (go(a, memo, depth + 1), go(b, memo, depth + 1));
+                        X::Operator(Rc::new(O::List(xa, xb)))
+                    }
+                    _ => unreachable!(),
+                };
+                memo.insert(k, x.clone());
+                x
+            }
+        }
+    }
+    go(e, &mut std::collections::HashMap::new(), 0)
+}
+
+/// operator subtrees that occur more than once (candidates for sharing)
+pub fn has_repeated_subtree(e: &E) -> bool {
+    fn go(e: &E, seen: &mut std::collections::HashSet<u64>, depth: usize) -> bool {
+        if depth > 400 {
+            return false;
+        }
+        match e {
+            E::T(_) | E::A(_) | E::G(_) | E::Pos => false,
+            E::Not(a) | E::Prec(a) => !seen.insert(crate::util::stable_hash(e)) || go(a, seen, depth + 1),
+            E::And(a, b) | E::Or(a, b) | E::List(a, b) => !seen.insert(crate::util::stable_hash(e)) || go(a, seen, depth + 1) || go(b, seen, depth + 1),
+        }
+    }
+    go(e, &mut std::collections::HashSet::new(), 0)
+}
+
 /// Total conversion from the crate's tree.
 pub fn from_ast(x: &ast::Expression) -> E {
     use ast::Expression as X;
